@@ -298,8 +298,11 @@ EXTRA2 = {
     'C03': " Plate level: `plate.fill_to/dispatch` and `per-well` (every addressed well goes through Container.fill_to, so its refusal is the plate's refusal).",
     'C05': " Concentration units may differ per solute (different denominators in one call).",
     'C08': " `steps-kept`: the baked recipe keeps all its steps in order (stage windows are positions in that list).",
-    'C09': " `Recipe.bake/steps-kept`: the baked recipe keeps all its steps in order (stage windows are positions in that list).",
-    'C15': " `Recipe.bake/steps-kept` as in C09.",
+    'C09': " `Recipe.bake/steps-kept`: the baked recipe keeps all its steps in order (stage windows are positions in that list). Unbounded in the number of steps: `inv[step-loop@Recipe.get_substance_used].init/.step` (induction over the step loop, one arbitrary abstract record per step shape) and the code after the loop against TOTAL; the telescoping of TOTAL to the net gain along the bookkeeping chain is a paper lemma.",
+    'C15': " `Recipe.bake/steps-kept` as in C09. get_container_flows of a CONTAINER is proved for a step list of arbitrary length (induction over the step loop with the two accumulators in/out); per-well arrays of plates stay with the 1..3-record scenarios.",
+    'C18': " Config.__init__ (pyplate/__init__.py) is executed by the engine on the yaml data of each setting (file search and yaml parsing dropped), so attributes it computes are what the code under verification sees; the sweep includes the refusal boundaries (over-draw by volume / mass / moles, fill below the current quantity).",
+    'C13': " Default row labels are compared with the spreadsheet convention A..Z, AA, AB, ... (bounded, shapes up to the stated bound; native fallback when the constructor is outside the subset).",
+    'C19': " `cache-transparent` is re-discharged here (a memoised conversion must not conflate equal-named substances).",
     'C10': " `Plate.get_volume` (total = sum over the wells to the displayed precision) and `Container.get_substances` are under contract; `observers[has_liquid/*]`, `observers[get_substances/*]` after _transfer, _add, remove and fill_to: the argument has been asked before, the result answers for its own contents (memo fields carried over by copies). Stores into private attributes (`_x`) are not frame writes.",
     'C11': " `rounding-placement/Container.dilute/accuracy[dilute]`, `refuse-higher`: the target is reached within the library's band and a higher target refused at every scale of concentration the two-component domain reaches (down to ~1e-11 M), with native replay.",
 }
